@@ -29,6 +29,8 @@ def settings_payload(d: dict) -> bytes:
 
 
 class StreamRec:
+    _mc_skip = ("data_frames",)
+
     def __init__(self, sid, window):
         self.id = sid
         self.headers = None          # list[(name, value)] as received
@@ -49,6 +51,9 @@ class StreamRec:
 
 
 class H2Conn(Peer):
+    # history-only attributes: they never influence what the peer does next
+    _mc_skip = ("frames_in", "open_at_headers", "server", "tr", "tls", "max_open_seen", "limit_history_full")
+
     def __init__(self, server):
         self.server = server
         cfg = server.cfg
@@ -287,6 +292,9 @@ class H2Conn(Peer):
             hdrs = self.decoder.decode(bytes(block), raw=True)
         except Exception as e:
             self.violations.append(f"HPACK decode error {type(e).__name__}: {e}")
+            # connection error COMPRESSION_ERROR: GOAWAY and close, as a real server does
+            self.send_goaway(self.highest_sid, 9)
+            self.tr.shutdown()
             return
         hdrs = [(bytes(k), bytes(v)) for k, v in hdrs]
         s = self.streams.get(sid)
